@@ -92,6 +92,11 @@ pub struct Seen {
     pub avail_bit_checks: u64,
     pub wide_scenarios: u64,
     pub wide_releases_checked: u64,
+    pub special_scenarios: u64,
+    pub service_restarts: u64,
+    pub restarts_with_queued_connections: u64,
+    pub backoffs_with_wakeups: u64,
+    pub refills_after_replacement: u64,
 }
 
 pub enum Outcome {
@@ -875,6 +880,333 @@ pub fn run_wide(workers: usize, seed: u64, rt: RtKind, seen: &mut Seen) -> Outco
     }
     if (!stopped || !joined || !threads_gone) && fails.is_empty() {
         return Outcome::Inconclusive("wide server did not stop in teardown".into());
+    }
+    if fails.is_empty() {
+        Outcome::Held
+    } else {
+        Outcome::Violated(fails)
+    }
+}
+
+// ------------------------------------------------------------------ back-pressure meets other mechanisms
+
+/// Mini-scenarios in which the back-pressure bookkeeping has to survive another mechanism of the server.
+#[derive(Clone, Copy, Debug, PartialEq, Eq)]
+pub enum Special {
+    /// every worker is at its limit and clients are waiting; one service fails its readiness check and is re-created:
+    /// still nothing may be dispatched (C02)
+    RestartWhileSaturated,
+    /// a service fails its readiness check while its worker is otherwise free; during the (slow) re-creation the accept
+    /// thread fills that worker up to its limit, the connections wait in the worker's queue; one more client must stay
+    /// in the backlog when the worker comes back (C04: a saturated worker receives nothing)
+    RestartWithQueuedConnections,
+    /// an accept error starts the back-off of the listener while the accept loop keeps being woken by other events;
+    /// the connection waiting on that listener is dispatched once the back-off is over (C03)
+    BackoffWithWakeups,
+    /// the only worker with capacity dies; a client connects during the outage; when the replacement registers the
+    /// waiting connection is dispatched to it (C03)
+    RefillAfterReplacement,
+}
+
+fn instance_of_worker(k: usize, listener: u64) -> Option<u64> {
+    // worker idx -> latest instance of `listener`'s service that took a connection dispatched to it
+    let log = verif::log_since(0);
+    let mut fd_worker: BTreeMap<i32, usize> = BTreeMap::new();
+    let mut res = None;
+    for r in &log {
+        match &r.ev {
+            Ev::Dispatch { fd, worker, .. } => {
+                fd_worker.insert(*fd, *worker);
+            }
+            Ev::User { kind: "call", a, b, c } if *b == listener => {
+                if fd_worker.get(&(*c as i32)) == Some(&k) {
+                    res = Some(*a);
+                }
+            }
+            _ => {}
+        }
+    }
+    res
+}
+
+fn count_ev(pred: impl Fn(&Ev) -> bool) -> usize {
+    verif::with_log(|l| l.iter().filter(|r| pred(&r.ev)).count())
+}
+
+pub fn run_special(kind: Special, seed: u64, seen: &mut Seen) -> Outcome {
+    let mut rng = Rng::new(seed ^ 0x5bec);
+    let baseline_threads = engine::thread_count();
+    verif::clear_injected_accept_errors();
+    verif::set_abort_spin(false);
+    verif::set_failpoints(&[], 0);
+    verif::start_recording();
+    let workers = match kind {
+        Special::RefillAfterReplacement => 1 + rng.usize(2),
+        _ => 1 + rng.usize(3),
+    };
+    let limit = 1 + rng.usize(3);
+    let rt = if rng.chance(1, 3) { RtKind::Tokio } else { RtKind::Actix };
+    let cfg = ServerCfg { workers, limit, listeners: vec![LKind::Tcp], rt, shutdown_timeout: 1, backlog: 128 };
+    let run = match engine::start(&cfg, |ctls| {
+        for c in ctls {
+            c.inner.lock().unwrap().keep_wakers = true;
+        }
+    }) {
+        Ok(r) => r,
+        Err(e) => return Outcome::Inconclusive(e),
+    };
+    let mut w = World { run, clients: Vec::new(), limit, workers };
+    let mut fails: Vec<Fail> = Vec::new();
+    let cap = workers * limit;
+    let shape = format!("{kind:?} w{workers} l{limit} {rt:?}");
+    let result = (|| -> Result<(), Outcome> {
+        match kind {
+            Special::RestartWhileSaturated => {
+                for _ in 0..cap {
+                    connect(&mut w, 0, true)?;
+                }
+                let _ = barrier(&w)?;
+                let extra = 1 + rng.usize(2);
+                for _ in 0..extra {
+                    connect(&mut w, 0, false)?;
+                }
+                wait_queue(&w.run.addrs[0].clone(), extra as u64);
+                let snap = barrier(&w)?;
+                quiescent_check(&w, &snap, "saturated, clients queued", seen, &mut fails);
+                let before = monitor::dispatch_sequence(&verif::log_since(0)).len();
+                let k = rng.usize(workers);
+                let Some(inst) = instance_of_worker(k, 0) else { return Err(Outcome::Inconclusive("no instance known for the worker".into())) };
+                let created = count_ev(|e| matches!(e, Ev::User { kind: "factory_new", .. }));
+                w.run.ctls[0].set_script(inst, &[engine::ReadyStep::Err]);
+                match engine::wait_log(|l| l.iter().filter(|r| matches!(&r.ev, Ev::User { kind: "factory_new", .. })).count() > created, engine::WATCHDOG) {
+                    Waited::Ok => {}
+                    _ => return Err(Outcome::Inconclusive("service was not re-created".into())),
+                }
+                seen.service_restarts += 1;
+                let snap = barrier(&w)?;
+                quiescent_check(&w, &snap, &format!("{shape}: after the service of worker {k} was re-created"), seen, &mut fails);
+                let after = monitor::dispatch_sequence(&verif::log_since(0)).len();
+                if after != before {
+                    fails.push(fail(
+                        "C02:dispatch-while-all-saturated",
+                        format!("{shape}: every worker held {limit} connection(s); after the service of worker {k} failed its readiness check and was re-created, {} waiting connection(s) were dispatched", after - before),
+                    ));
+                }
+            }
+            Special::RestartWithQueuedConnections => {
+                for _ in 0..cap {
+                    connect(&mut w, 0, true)?;
+                }
+                let _ = barrier(&w)?;
+                // free every slot of worker k
+                let k = rng.usize(workers);
+                let Some(inst) = instance_of_worker(k, 0) else { return Err(Outcome::Inconclusive("no instance known for the worker".into())) };
+                let mine: Vec<usize> = (0..w.clients.len()).filter(|i| worker_of_cid(w.clients[*i].cid) == Some(k)).collect();
+                for i in mine {
+                    let c = std::mem::replace(&mut w.clients[i], dummy_client());
+                    close_and_wait(c)?;
+                }
+                let snap = barrier(&w)?;
+                quiescent_check(&w, &snap, "one worker emptied", seen, &mut fails);
+                // slow re-creation of its service: the worker thread is busy in the factory for 150 ms
+                w.run.ctls[0].inner.lock().unwrap().factory_delay_ms.push_back(150);
+                let created = count_ev(|e| matches!(e, Ev::User { kind: "factory_new", .. }));
+                let before = monitor::dispatch_sequence(&verif::log_since(0)).len();
+                w.run.ctls[0].set_script(inst, &[engine::ReadyStep::Err]);
+                match engine::wait_log(|l| l.iter().filter(|r| matches!(&r.ev, Ev::User { kind: "factory_new", .. })).count() > created, engine::WATCHDOG) {
+                    Waited::Ok => {}
+                    _ => return Err(Outcome::Inconclusive("service was not re-created".into())),
+                }
+                // fill the worker through the accept thread while it is busy; one more must wait
+                for _ in 0..limit {
+                    connect(&mut w, 0, false)?;
+                }
+                match engine::wait_log(|l| l.iter().filter(|r| matches!(&r.ev, Ev::Dispatch { .. })).count() >= before + limit, Duration::from_secs(3)) {
+                    Waited::Ok => {}
+                    _ => return Err(Outcome::Inconclusive("the accept thread did not fill the restarting worker".into())),
+                }
+                connect(&mut w, 0, false)?;
+                wait_queue(&w.run.addrs[0].clone(), 1);
+                seen.service_restarts += 1;
+                seen.restarts_with_queued_connections += 1;
+                thread::sleep(Duration::from_millis(200));
+                let snap = barrier(&w)?;
+                quiescent_check(&w, &snap, &format!("{shape}: after the restart of worker {k}'s service with {limit} connection(s) queued at it"), seen, &mut fails);
+                let seq = monitor::dispatch_sequence(&verif::log_since(0));
+                if seq.len() != before + limit {
+                    fails.push(fail(
+                        "C04:dispatch-to-saturated-worker",
+                        format!(
+                            "{shape}: worker {k} was filled to its limit while its service was being re-created (connections waiting in its queue); afterwards {} more connection(s) were dispatched, to workers {:?}, although every worker was at its limit",
+                            seq.len() as i64 - (before + limit) as i64,
+                            seq[(before + limit).min(seq.len())..].iter().map(|x| x.2).collect::<Vec<_>>()
+                        ),
+                    ));
+                }
+            }
+            Special::BackoffWithWakeups => {
+                // some load first
+                let held = rng.usize(cap);
+                for _ in 0..held {
+                    connect(&mut w, 0, true)?;
+                }
+                let _ = barrier(&w)?;
+                verif::inject_accept_errors(&w.run.addrs[0].display_key(), &[crate::c05::EMFILE]);
+                let idx = connect(&mut w, 0, false)?;
+                match engine::wait_log(|l| l.iter().any(|r| matches!(&r.ev, Ev::InjectedAcceptError { .. })), Duration::from_secs(3)) {
+                    Waited::Ok => {}
+                    _ => return Err(Outcome::Inconclusive("the injected accept error was not consumed".into())),
+                }
+                let t0 = Instant::now();
+                // the accept loop is woken every 100 ms while the back-off deadline passes
+                while t0.elapsed() < Duration::from_millis(800) {
+                    thread::sleep(Duration::from_millis(100));
+                    let _ = w.run.accept_barrier(false);
+                }
+                seen.backoffs_with_wakeups += 1;
+                let snap = barrier(&w)?;
+                let backing_off = snap.listeners.iter().any(|(_, b)| *b);
+                if backing_off {
+                    fails.push(fail(
+                        "C03:listener-not-rearmed-after-backoff",
+                        format!(
+                            "{shape}: {} ms after an accept error (EMFILE) the listener is still deregistered for its back-off although the accept loop has been running (woken every 100 ms); a connection is waiting on it and workers have free slots; last events {:?}",
+                            t0.elapsed().as_millis(),
+                            monitor::tail(&verif::log_since(0), 8)
+                        ),
+                    ));
+                } else {
+                    quiescent_check(&w, &snap, &format!("{shape}: after the back-off"), seen, &mut fails);
+                    let c = &mut w.clients[idx];
+                    let t1 = Instant::now();
+                    while c.poll_ack(Duration::from_millis(20)) == Ack::NotYet && t1.elapsed() < Duration::from_secs(3) {}
+                    if !c.served && fails.is_empty() {
+                        if vh_core::proc::quiescent(Duration::from_millis(1500)) == Some(true) {
+                            fails.push(fail("C03:spare-capacity-unused:after-backoff", format!("{shape}: the connection that met the accept error was not served after the back-off although workers have free slots; process quiescent")));
+                        } else {
+                            return Err(Outcome::Inconclusive("client after back-off not served yet, process busy".into()));
+                        }
+                    }
+                }
+            }
+            Special::RefillAfterReplacement => {
+                // everyone but worker 0's slot... simply: saturate all workers except the one that will die and be replaced
+                for _ in 0..workers {
+                    let idx = connect(&mut w, 0, true)?;
+                    let _ = idx;
+                }
+                let _ = barrier(&w)?;
+                // learn who serves whom; the victim is the worker of the first client
+                let victim = worker_of_cid(w.clients[0].cid).ok_or_else(|| Outcome::Inconclusive("cannot map client to worker".into()))?;
+                // fill the other workers completely, release the victim's connection
+                let c0 = std::mem::replace(&mut w.clients[0], dummy_client());
+                close_and_wait(c0)?;
+                let _ = barrier(&w)?;
+                let mut guard = 0;
+                loop {
+                    let (c, _) = monitor::shadow(&verif::log_since(0), limit, false);
+                    let others_full = (0..workers).filter(|i| *i != victim).all(|i| *c.in_flight.get(&i).unwrap_or(&0) >= limit as i64);
+                    let victim_load = *c.in_flight.get(&victim).unwrap_or(&0);
+                    if others_full && victim_load == 0 {
+                        break;
+                    }
+                    guard += 1;
+                    if guard > 4 * cap + 8 {
+                        return Err(Outcome::Inconclusive("could not reach: victim empty, others full".into()));
+                    }
+                    let idx = connect(&mut w, 0, true)?;
+                    let _ = barrier(&w)?;
+                    if worker_of_cid(w.clients[idx].cid) == Some(victim) {
+                        let c = std::mem::replace(&mut w.clients[idx], dummy_client());
+                        close_and_wait(c)?;
+                        let _ = barrier(&w)?;
+                    }
+                }
+                // the replacement takes 300 ms to build
+                {
+                    let mut g = w.run.ctls[0].inner.lock().unwrap();
+                    g.factory_delay_ms.push_back(300);
+                    g.panic_next_call = true;
+                }
+                // this connection goes to the victim (the only worker with room) and kills it
+                let a = Client::connect(&w.run.addrs[0], 0, b'F').map_err(|e| Outcome::Inconclusive(format!("connect: {e}")))?;
+                // the death is discovered by the next dispatch to it
+                let t0 = Instant::now();
+                let mut probes = Vec::new();
+                while count_ev(|e| matches!(e, Ev::DispatchFailed { .. })) == 0 && t0.elapsed() < Duration::from_secs(5) {
+                    thread::sleep(Duration::from_millis(20));
+                    if let Ok(c) = Client::connect(&w.run.addrs[0], 0, b'F') {
+                        probes.push(c);
+                    }
+                    thread::sleep(Duration::from_millis(30));
+                }
+                if count_ev(|e| matches!(e, Ev::DispatchFailed { .. })) == 0 {
+                    return Err(Outcome::Inconclusive("the worker's death was not discovered".into()));
+                }
+                // during the outage: one client connects and has to wait (no worker has room)
+                let waiting = Client::connect(&w.run.addrs[0], 0, b'H').map_err(|e| Outcome::Inconclusive(format!("connect: {e}")))?;
+                match engine::wait_log(|l| l.iter().any(|r| matches!(&r.ev, Ev::Interest { kind: "worker", .. })), Duration::from_secs(10)) {
+                    Waited::Ok => {}
+                    _ => return Err(Outcome::Inconclusive("no replacement adopted".into())),
+                }
+                seen.refills_after_replacement += 1;
+                let _ = w.run.accept_barrier(false);
+                thread::sleep(Duration::from_millis(80));
+                let snap = w.run.accept_barrier(false).map_err(|_| Outcome::Inconclusive("accept thread did not answer".into()))?;
+                let spare: i64 = snap.counters.iter().map(|(_, total)| (limit as i64 - *total as i64).max(0)).sum();
+                let queued = match &w.run.addrs[0] {
+                    Addr::Tcp(a) => monitor::tcp_accept_queue(a.port()).unwrap_or(0),
+                    _ => 0,
+                };
+                if queued > 0 && spare > 0 {
+                    // once more, so that a connection that is just being taken is not counted
+                    thread::sleep(Duration::from_millis(100));
+                    let snap2 = w.run.accept_barrier(false).map_err(|_| Outcome::Inconclusive("accept thread did not answer".into()))?;
+                    let spare2: i64 = snap2.counters.iter().map(|(_, total)| (limit as i64 - *total as i64).max(0)).sum();
+                    let queued2 = match &w.run.addrs[0] {
+                        Addr::Tcp(a) => monitor::tcp_accept_queue(a.port()).unwrap_or(0),
+                        _ => 0,
+                    };
+                    if queued2 > 0 && spare2 > 0 {
+                        fails.push(fail(
+                            "C03:spare-capacity-unused:after-worker-replacement",
+                            format!(
+                                "{shape}: worker {victim} died and was replaced; {queued2} connection(s) that arrived during the outage are still in the listener's accept queue although the replacement has {spare2} free slot(s) and the accept loop is idle; handles {:?} counters {:?}; last events {:?}",
+                                snap2.handles,
+                                snap2.counters,
+                                monitor::tail(&verif::log_since(0), 8)
+                            ),
+                        ));
+                    }
+                }
+                a.close();
+                for p in probes {
+                    p.close();
+                }
+                waiting.close();
+            }
+        }
+        Ok(())
+    })();
+    let clients: Vec<Client> = w.clients.drain(..).collect();
+    let (stopped, _) = w.run.stop(false, Duration::from_secs(15));
+    for c in clients {
+        if c.cid != 0 {
+            c.close();
+        }
+    }
+    let joined = w.run.join(Duration::from_secs(15));
+    verif::stop_recording();
+    verif::clear_injected_accept_errors();
+    let threads_gone = engine::wait_threads_gone(baseline_threads, Duration::from_secs(10));
+    seen.special_scenarios += 1;
+    match result {
+        Err(Outcome::Violated(mut v)) => fails.append(&mut v),
+        Err(Outcome::Inconclusive(why)) if fails.is_empty() => return Outcome::Inconclusive(why),
+        _ => {}
+    }
+    if (!stopped || !joined || !threads_gone) && fails.is_empty() {
+        return Outcome::Inconclusive("server did not stop in teardown".into());
     }
     if fails.is_empty() {
         Outcome::Held
